@@ -189,7 +189,38 @@ def law_sweep(ctx, em):
     ok2 = (H * fb / (K * Tb) > 1e-6) & (H * fb / (K * Tb) < 600)
     law("broadcast", ok2 & (rel(em.planck(fb, Tb), em.planck(np.broadcast_to(fb, ok2.shape).copy(), np.broadcast_to(Tb, ok2.shape).copy())) > 0),
         [np.broadcast_to(fb, ok2.shape), np.broadcast_to(Tb, ok2.shape)], "broadcast inputs = element-wise")
+    # the inversions under every broadcast combination the statement names: frequency on one axis, temperature on another,
+    # rectangular AND square shapes (numpy's rule: trailing axes are aligned), scalars against arrays, an extra unit axis
+    for nf, nt in ((3, 4), (4, 4), (5, 5), (1, 6), (6, 1), (7, 7)):
+        f1 = np.sort(10 ** rng.uniform(9, 13, nf))
+        for tshape in ((nt, 1), (nt, 1, 1), (1, nt), (nt,)):
+            try:
+                np.broadcast_shapes((nf,), tshape)
+            except ValueError:
+                continue
+            Tn = (10 ** rng.uniform(1.5, 3.3, nt)).reshape(tshape)
+            for fwd, inv, nm in ((em.planck, em.radiance2planckTb, "planck"),
+                                 (em.rayleighjeans, em.radiance2rayleighjeansTb, "rayleighjeans")):
+                full_f, full_T = np.broadcast_arrays(f1, Tn)
+                okb = (H * full_f / (K * full_T) > 1e-4) & (H * full_f / (K * full_T) < 300)
+                rad = fwd(f1, Tn)
+                back = inv(f1, rad)
+                cond = np.where(okb, 1e-9 * (1 + K * full_T / (H * full_f)), np.inf) if nm == "planck" else 1e-12
+                law(f"tb-inverse-broadcast:{nm}", okb & ((np.shape(back) != full_T.shape) | (rel(np.broadcast_to(back, full_T.shape), full_T) > cond)),
+                    [full_f, full_T], f"radiance2{nm}Tb(f, {nm}(f, T)) = T for f of shape {f1.shape} against T of shape {tshape}")
     v = 10 ** rng.uniform(-7, 15, n)
+    # the unit converters on integer-typed input (a Python int, a numpy integer, an integer array): the same numbers as floats
+    vi = np.unique(rng.integers(1, 10 ** 6, 40))
+    for name in ("frequency2wavelength", "wavelength2frequency", "frequency2wavenumber", "wavenumber2frequency",
+                 "wavelength2wavenumber", "wavenumber2wavelength"):
+        fnc = getattr(em, name)
+        want = fnc(vi.astype(float))
+        got_arr = np.asarray(fnc(vi), dtype=float)
+        got_int = np.array([float(fnc(int(x))) for x in vi[:10]])
+        got_np = np.array([float(fnc(np.int64(x))) for x in vi[:10]])
+        law(f"units-integer-input:{name}", (rel(got_arr, want) > 1e-14), [vi.astype(float)], f"{name}(integer array) = {name}(the same values as floats)")
+        law(f"units-integer-input:{name}", (rel(got_int, want[:10]) > 1e-14) | (rel(got_np, want[:10]) > 1e-14), [vi[:10].astype(float)],
+            f"{name}(int) = {name}(float)")
     for a, b in (("frequency2wavelength", "wavelength2frequency"), ("frequency2wavenumber", "wavenumber2frequency"),
                  ("wavelength2wavenumber", "wavenumber2wavelength")):
         law(f"units:{b}.{a}", rel(getattr(em, b)(getattr(em, a)(v)), v) > 1e-14, [v], f"{b}({a}(v)) = v")
